@@ -352,6 +352,15 @@ def splice(fn_text, blocks, res, sec, unit):
         if body is None:
             raise Undecided("bad recipe: no ghost argument text for call site `%s` of %s" % (key, sec.name))
         return " ".join(l.strip() for l in body if l.strip())
+    def garg_none(m):
+        # a call site of a same-named callee that takes no ghost argument: recipe text `none` removes the placeholder argument
+        key = "garg %s %s" % (m.group(1), m.group(2))
+        body = blocks.get(key)
+        if body is not None and " ".join(l.strip() for l in body if l.strip()) == "none":
+            used.add(key)
+            return ""
+        return m.group(0)
+    text = re.sub(r",\s*__vx_garg\s*!\s*\(\s*(\w+)\s*,\s*(\d+)\s*\)", garg_none, text)
     text = re.sub(r"__vx_garg\s*!\s*\(\s*(\w+)\s*,\s*(\d+)\s*\)", garg, text)
     out_lines = text.split("\n")
     for k in blocks:
@@ -409,7 +418,7 @@ def audit_recipe_block(key, lines, where):
         if not first or first.group(0) not in SPEC_KEYWORDS:
             raise Undecided("bad recipe: %s: block `%s` must start with a specification keyword" % (where, key))
     elif key.startswith("garg "):
-        if not re.match(r"(Ghost|Tracked)\(", text):
+        if text.strip() != "none" and not re.match(r"(Ghost|Tracked)\(", text):
             raise Undecided("bad recipe: %s: ghost argument must be `Ghost(..)` or `Tracked(..)`" % where)
     elif key.startswith("closure "):
         if not (text.startswith("->") or re.match(r"(requires|ensures)\b", text)):
